@@ -341,6 +341,12 @@ def rule_offset_relative(ctx, rule="C20/offset-relative-to-copy"):
         for x, t in b.calls(lambda c: c.is_(SHP) or (c.short or "").endswith("PtraceDumper::sanitize_stack_copy")):
             cv = CalleeView(t["callee"])
             a = o.call_args(x)
+            if len(a) < (3 if cv.is_(SHP) else 4):
+                n += 1
+                k += 1
+                ctx.violated(R, (fn.split("::")[-1], "%s#%d" % ((cv.short or "").split("::")[-1], k)), b.where(x),
+                             "anchor lost: %s no longer takes (copy, stack-pointer offset): the scan cannot be tied to the word the stack pointer designates in the copy" % (cv.short or "").split("::")[-1])
+                continue
             if cv.is_(SHP):
                 bytes_e, off = a[1], a[2]
                 sp_e = None
